@@ -565,6 +565,7 @@ func (ex *Exec) loopHead(li *loopInfo) {
 				continue
 			}
 			st.heaps[h] = em.newConst(h, srt)
+			ex.loopFrame(h, srt, st.heaps[h])
 		}
 	}
 	// ghost variables modified in the loop are havocked conservatively: all of them
@@ -742,6 +743,16 @@ func (ex *Exec) fireSite(cl *Clause, sel string, in ssa.Instruction) {
 		if !ok {
 			env.fail("set of undeclared ghost %s", cl.Label)
 		}
+		if !r.assignsAll {
+			// frame: callers havoc a ghost only if the callee's assigns clause names it
+			listed := false
+			for _, t := range r.assignsTargets {
+				listed = listed || t.heap == "ghost:"+cl.Label
+			}
+			if !listed {
+				env.fail("ghost %s is set here but not named in the assigns clause", cl.Label)
+			}
+		}
 		nv := env.eval(cl.Expr)
 		if nv.S != old.S {
 			env.fail("ghost %s has sort %s, assigned %s", cl.Label, old.S, nv.S)
@@ -827,6 +838,12 @@ func calleeName(c *ssa.CallCommon) string {
 	}
 	if b, ok := c.Value.(*ssa.Builtin); ok {
 		return b.Name()
+	}
+	// a call through a local variable or parameter holding a function value: the variable's name
+	if u, ok := c.Value.(*ssa.UnOp); ok && u.Op == token.MUL {
+		if a, ok := u.X.(*ssa.Alloc); ok && a.Comment != "" {
+			return a.Comment
+		}
 	}
 	return c.Value.Name()
 }
@@ -979,6 +996,9 @@ func (eng *Engine) VerifyFunc(fn *ssa.Function, fc *FuncContract) (em *Emitter, 
 		}
 	}
 	ex.fireEvent("entry")
+	for _, u := range fc.Uses {
+		ex.useAxiom(u, env, "true") // instances of manual axioms over the entry state
+	}
 	ex.runBody(st, "true")
 	// postconditions at each return
 	for ri, r := range ex.returns {
@@ -996,7 +1016,9 @@ func (eng *Engine) VerifyFunc(fn *ssa.Function, fc *FuncContract) (em *Emitter, 
 		ex.curSt, ex.curPC = r.st, r.pc
 		ex.fireEvent("return")
 		penv.st = ex.curSt
-		ex.vacuity(fmt.Sprintf("return#%d reachable", ri+1), r.pc, fn.Pos())
+		if !r.viaPanic {
+			ex.vacuity(fmt.Sprintf("return#%d reachable", ri+1), r.pc, fn.Pos())
+		}
 		for i, cl := range fc.Ensures {
 			lab := cl.Label
 			if strings.HasPrefix(lab, "call.") {
